@@ -419,6 +419,7 @@ class SandboxedEnvironment(Environment):
         __self,  # noqa: B902
         __context: Context,
         __obj: t.Any,
+        /,
         *args: t.Any,
         **kwargs: t.Any,
     ) -> t.Any:
